@@ -241,15 +241,21 @@ def replay(h, f_real, in_vals, aux, claim_index, label, model, ctx):
                 env={k: float(v) for k, v in env.items() if "!" not in k})
 
 
-def run_harness(h: Harness, seed=0, tier="quick"):
+def run_harness(h: Harness, seed=0, tier="quick", shard=None):
     """returns dict(records=[...], stats={...}); each record: label, status, t, cell, replay"""
     t_start = time.time()
     rng = random.Random(seed * 7919 + hash(h.name) % 1000)
     stats = dict(name=h.name, cells=0, cells_skipped=0, queries=0, solver_time=0.0,
                  resolutions={}, functions=[], unknown_feas=0)
     records = []
+    nclaim = 0
     try:
         f = h.build()
+    except NotImplementedError as e:
+        # the operation is explicitly not offered for this group: out of scope
+        stats["not_offered"] = str(e)[:200]
+        stats["wall"] = time.time() - t_start
+        return dict(records=records, stats=stats)
     except Exception as e:
         # the real code refuses/crashes when asked to do what the property says it offers
         import traceback
@@ -295,6 +301,9 @@ def run_harness(h: Harness, seed=0, tier="quick"):
                                 cell=str(cell.decisions)))
             continue
         for c in cl:
+            nclaim += 1
+            if shard is not None and (nclaim % shard[1]) != shard[0]:
+                continue
             if isinstance(c, tuple):
                 _, label, fml = c
                 kindc = "raw"
